@@ -857,14 +857,15 @@ class Engine(object):
                     outs = self.exec_expr(node.e, ts, env, ctx)
                 for ts2, env2, cv in outs:
                     env3 = env2
-                    if node.e is not None and not node.static and node.var.decl not in addr:
+                    if node.e is not None and not node.static:
                         ctx.env, ctx.callvals = env2, cv
                         val = self.eval(node.e, env2, cv, ctx)
-                        env3 = dict(env2)
-                        if self.keep(node.e, val, env2):
-                            env3[node.var.decl] = val
-                        else:
-                            env3.pop(node.var.decl, None)
+                        if node.var.decl not in addr:
+                            env3 = dict(env2)
+                            if self.keep(node.e, val, env2):
+                                env3[node.var.decl] = val
+                            else:
+                                env3.pop(node.var.decl, None)
                         ts3 = rule.on_assign(ctx, node.var, node.e, '=', val, ts2)
                     else:
                         ts3 = ts2
